@@ -166,7 +166,10 @@ def gen_cases(rng, tier, words=None):
         j = stack.reply_json(obs["replies"][-1])
         apdus = [e[1] for e in obs["trace"] if e[0] == "A"]
         cmdname = req["command"]
-        base = {"name": name, "command": cmdname, "honest_code": j["errorcode"]}
+        # the code an honest run must produce is what the DEVICE reported (0 total / 1 partial success), not what
+        # the implementation made of it
+        dv = commands.device_verdict(cmdname, obs["device"])
+        base = {"name": name, "command": cmdname, "honest_code": j["errorcode"] if dv is None else dv}
         cases.append({"mode": mode, "kind": "ledger", "lines": [gen.line(req)], "script": list(answers),
                       "meta": dict(base, fault=("none",), step=-1, reached=lambda o: True, step_kind=None)})
         if answers:
